@@ -68,6 +68,15 @@ Fixpoint picks (l : list call) : list (call * list call) :=
 
 Definition minimal (c : call) (r : list call) : bool := forallb (fun d => negb (before d c)) r.
 
+(* [existsb] with a lazy right-hand side: the kernel's VM is call-by-value, so [f x || ...]
+   and [a && b] would evaluate every alternative and every sub-search even after a
+   success or a mismatch; [if] is lazy *)
+Fixpoint anyb {X} (f : X -> bool) (l : list X) : bool :=
+  match l with
+  | [] => false
+  | x :: l' => if f x then true else anyb f l'
+  end.
+
 Fixpoint lin (fuel : nat) (fin : St -> bool) (s : St) (h : list call) : bool :=
   match h with
   | [] => fin s
@@ -75,8 +84,10 @@ Fixpoint lin (fuel : nat) (fin : St -> bool) (s : St) (h : list call) : bool :=
     match fuel with
     | O => false
     | S f =>
-      existsb (fun '(c, r) =>
-        minimal c r && (let '(s', res) := step s (cop c) in accept res (cres c) && lin f fin s' r)) (picks h)
+      anyb (fun '(c, r) =>
+        if minimal c r
+        then (let '(s', res) := step s (cop c) in if accept res (cres c) then lin f fin s' r else false)
+        else false) (picks h)
     end
   end.
 
